@@ -213,6 +213,27 @@ def check(ctx):
             keyt = t[2][0]
             nkeys += 1
             problems = _key_problems(keyt)
+            if problems and any("election_id" in p_ for p_ in problems):
+                # the election id may reach the writer packed in another argument (a tuple of ids ..): read the template with the arguments of
+                # every call site in place of the parameters
+                per_site = []
+                for g_, cn_ in ctx.cg.callers_of(f):
+                    if not isinstance(cn_, ast.Call):
+                        continue
+                    gs_ = b.summarize(g_)
+                    ct_ = next((x for _, t_, _ in list(gs_.effects) + [(None, t2, None) for _, _, t2, _ in gs_.assigns] for x in ir.walk(t_)
+                                if x[0] == "call" and b.loc.get(x) and b.loc[x][1] is cn_), None)
+                    if ct_ is None:
+                        per_site = None
+                        break
+                    bind_ = ir.bind_args(f, ct_[2], ct_[3], method=f.cls is not None) or {}
+                    k2 = ir.subst(keyt, {("param", p_): a_ for p_, a_ in bind_.items() if isinstance(a_, tuple)})
+                    # (a, b, c)[i] of a display is its element
+                    k2 = ir.map_terms(k2, lambda x: x[1][1][x[2][1]] if x[0] == "sub" and x[1][0] in ("tuple", "list") and x[2][0] == "const" and isinstance(x[2][1], int)
+                                      and 0 <= x[2][1] < len(x[1][1]) else x) if hasattr(ir, "map_terms") else k2
+                    per_site.append(_key_problems(k2))
+                if per_site:
+                    problems = [p_ for ps_ in per_site for p_ in ps_]
             ctx.ob("C18.R3.key", f"{f.qualname}|{util.stmt_text(c, 80)}", not problems, f.where(c),
                    f"key template {ir.show(keyt)} is rooted at S3_FILE_PATH/election_id and whitespace-free" if not problems
                    else f"key template {ir.show(keyt)}: " + "; ".join(problems))
